@@ -119,7 +119,7 @@ def main():
        "hooks":{"guard":"verif","enable":"none needed: harnesses are package-kcp files injected with packages.Config.Overlay (analysis) and go test -overlay (native replay); /repo is not edited","baseline_off_cmd":"cd /repo && go test -vet=off -count=1 -timeout 25m ./...","source_commits":[],"add_only":True},
        "engines":[{"name":"gse","path":"/verif/gse","serves_properties":sorted(CHECKS),"kind_free_text":"symbolic executor over go/ssa (x/tools v0.50.0) of /repo's working tree; path exploration by re-execution from decision prefixes on 16 workers; SMT-LIB2 to persistent z3 5.1 / z3 4.8.12 processes; harnesses in /verif/harness are overlaid into package kcp"}],
        "checks":[], "not_applicable":[],
-       "notes":"Every verdict is 'holds for all values within the stated bounds' (bounds, stubs, assumptions are in each evidence file). Exit 0 = held; exit 1 + VIOLATION line = counterexample that reproduced against the real build; exit 3 = inconclusive (solver unknown, unsupported construct, vacuity, translator-validation failure) and is never reported as success."}
+       "notes":"Every verdict is 'holds for all values within the stated bounds' (bounds, stubs, assumptions are in each evidence file). Exit 0 = held; exit 1 + VIOLATION line = counterexample that reproduced against the real build; exit 3 = inconclusive (solver unknown, unsupported construct, vacuity, translator-validation failure) and is never reported as success. Thorough tier = two passes per harness: pass 1 explores the quick family completely and must be conclusive; pass 2 explores the larger thorough family within a wall-clock budget per harness (300 s, VF_DEEP_S) and is reported per harness in the evidence under deep_exploration as complete (the thorough bounds hold) or incomplete (quick bound + bug hunting beyond it); violations found in either pass are reported alike."}
     for pid in props:
         if pid in CHECKS:
             c=CHECKS[pid]
